@@ -44,6 +44,7 @@ fn gen(t: Tier, _seed: u64, emit: &mut dyn FnMut(Case)) {
         let mut ns = wb_lengths(cid.bits(), t.pick(2, 3));
         ns.extend([4, 5, 7]);
         ns.extend(long_lengths(cid.bits()));
+        ns.extend(huge_lengths(cid.bits()));
         ns.sort();
         ns.dedup();
         for n in ns {
@@ -271,7 +272,15 @@ fn image_checks<A: Sx>(pr: &Produced<A>, out: &mut Out) {
     // rebuilding from the image with every symbol count
     out.stage = "from_raw";
     let cap = raw.len() * 64 / bits;
-    for count in 0..=cap + 2 {
+    let counts: Vec<usize> = if cap <= 1200 {
+        (0..=cap + 2).collect()
+    } else {
+        let mut c = vec![0, 1, n / 2, n.saturating_sub(1), n, n + 1, cap.saturating_sub(1), cap, cap + 1, cap + 2];
+        c.sort();
+        c.dedup();
+        c
+    };
+    for count in counts {
         let got = out.catch(|| Seq::<A>::from_raw(count, &raw));
         let fits = count * bits <= raw.len() * 64;
         match (&got, fits) {
@@ -338,7 +347,7 @@ fn raw<A: Sx>(n: usize, variant: u64, out: &mut Out) {
     let nof = noff(A::BITS as usize);
     let content = syms::<A>(&bg(n, m, 80 + variant, out.seed));
     let other = syms::<A>(&bg(n, m, 90 + variant, out.seed));
-    let offsets: Vec<usize> = if out.tier.thorough() { (0..nof).collect() } else { vec![0, 1, nof / 2 + 1, nof - 1] };
+    let offsets: Vec<usize> = if n > 1200 { vec![0, 1] } else if out.tier.thorough() { (0..nof).collect() } else { vec![0, 1, nof / 2 + 1, nof - 1] };
     out.dim("len", n as i64);
     let prods = match catch(|| producers::producers::<A>(&content, &other, &offsets, true)) {
         Ok(p) => p,
